@@ -322,7 +322,7 @@ def run(ctx):
     for src in controls:
         jobs.append(('[{"rule":"rename_variables","detect_globals":false,"include_functions":true}]', '"dense"', src,
                      True, "g_default", "control"))
-    n_random = 500 if quick else 12000
+    n_random = 500 if quick else 8000
     for k in range(n_random):
         src = G.random_program(rnd, luau=(k % 5 == 4))
         for rules, incl, gl in rnd.sample(cfgs, 2):
